@@ -15,6 +15,16 @@ CLAIMED = {
              "theorems (float32/float64 rounding via the bit-exact tie and a 1e-4 getter tolerance). Known findings K04a (fade half rounding), K04b (tiny motor speed), "
              "K04c (fractional servo pulse bounds folded with int()).",
         technique="Lean 4 refinement theorems Fw vs Host + bit-exact model/compiled-firmware correspondence (S_c) + timeline oracle", ref="4/C04"),
+    "C09": dict(
+        text="Lean theorems over a heap model of the emitted list helpers and usage forms: in the owned discipline (lists declared once from a maker, then append / "
+             "remove / in-bounds indexing incl. negative / len / assignment from another declared list) no history produces a memory error, every live block is owned by "
+             "exactly one list and live blocks = number of non-empty lists (constant across passes when the lists' emptiness pattern is); the alias-copy, temporary and "
+             "loop-local forms are decided by machine-checked counterexamples. The model's verdict and live-block count are compared with the compiled sketch under "
+             "ASan+UBSan with counted array new/delete; sanitizer reports and per-pass heap growth on the real firmware are the oracle.",
+        note="Trusted: Lean kernel (propext, Classical.choice, Quot.sound); ASan/UBSan and the counted operator new[]/delete[] as observers; the mapping statement -> usage form "
+             "is validated by the tie only; undefined behaviour invisible to the heap model and the sanitizers is not covered. Known findings K09a (list copy semantics), "
+             "K09b (temporary leak), K09c (stale folded length after remove of a run-time value).",
+        technique="Lean 4 invariant proof on a heap model + sanitizer/allocation-counter correspondence (S_c)", ref="4/C09"),
     "C12": dict(
         text="Theorems over the effect model of target() for every scenario (pair valid?, upload?, PlatformIO present?, Servo note?, 10 fault points), proved by kernel "
              "decide; the model is tied to the real target() by an exhaustive differential run of the whole scenario space x 5 scripts with subprocess/tempfile/pathlib "
